@@ -10,6 +10,7 @@ From GmsmVerif Require Import Lib.Outcome EC.ECAffine EC.SM2Curve SM3.SM3Spec
 From GmsmVerif Require Import SM2.SM2ParamsTie Gen.SM2Params Gen.SM2SigParams.
 From GmsmVerif Require Import SM2.SM2SignExtra.
 From GmsmVerif Require SM2.SM2GroupMin.   (* minimal-premise versions; used qualified *)
+From GmsmVerif Require Import SM2.SM2Consumers.
 From GmsmVerif Require SM2.SM2Unconditional.   (* associativity proved: SM2/ECAssoc.v *)
 Import ListNotations.
 Open Scope Z_scope.
@@ -340,6 +341,25 @@ Theorem C01_accepting_keys_characterised_noassoc :
                sm2_mul ((r + s) mod sm2_n) (Some pub) = sm2_add R (sm2_neg (sm2_base_mul s))).
 Proof. intros Hp. exact (SM2GroupMin.verify_spec_keys Hp (SM2Unconditional.add_assoc_holds Hp)). Qed.
 Print Assumptions C01_accepting_keys_characterised_noassoc.
+
+(* ---- 12. the consumers named by the anchors add no acceptance of their own -------------------------------------
+   gmtls verifyHandshakeSignature (SM2 branch = PublicKey.Verify; ECDSA branch on the SM2 curve: lax asn1.Unmarshal,
+   positive R,S, then the strict PublicKey.Verify) and x509 checkSignature for an SM2 key (lax Unmarshal, no rest,
+   re-marshalled bytes equal, Sm2Verify with the default ID): whatever they accept is the strict DER encoding of
+   a pair the verifier accepts.  Models in SM2/SM2Consumers.v, tied by the W cases of the driver. *)
+Theorem C01_handshake_signature_consumers_strict :
+  forall pub digest sig,
+    (verifyHandshakeSignature_sm2 pub digest sig = PublicKey_Verify pub digest sig) /\
+    (verifyHandshakeSignature_ecdsa pub digest sig = true -> PublicKey_Verify pub digest sig = true).
+Proof. intros. split; [reflexivity|apply handshake_ecdsa_sound]. Qed.
+Print Assumptions C01_handshake_signature_consumers_strict.
+
+Theorem C01_x509_checkSignature_strict :
+  forall pub signed sig,
+    x509_checkSignature_sm2 pub signed sig = true ->
+    exists r s, sig = sig_encode r s /\ 0 < r /\ 0 < s /\ Sm2Verify pub signed [] r s = true.
+Proof. exact x509_checkSignature_sound. Qed.
+Print Assumptions C01_x509_checkSignature_strict.
 
 (* ---- non-vacuity: concrete instances, evaluated ----------------------------------------------------------- *)
 (* key d = 1, digest 5, a stream whose first attempt gives k = 2 *)
